@@ -43,8 +43,14 @@ TRemove  == Ev("remove")  /\ Remove(E.ns, E.nm) /\ Bind
 TClear   == Ev("clear")   /\ Clear  /\ Bind
 TDeploy  == Ev("deploy")  /\ Deploy /\ Bind
 TEval    == Ev("eval")    /\ Evaluate(E.nm) /\ Bind
+\* Workspace::new(directory) on files holding the models E.cands (the loose form: see WorkspaceCore!LoadDirLoose);
+\* a candidate left out although nothing loaded clashes with it is reported as a NOTE, not rejected
+Cands == {m \in Models : \E i \in DOMAIN E.cands : E.cands[i] = m.id}
+TLoad    == Ev("load")    /\ LoadDirLoose(Cands, StoredSet(E.stored)) /\ Bind
+                          /\ IF LeftOutClash(defs', Cands) THEN TRUE
+                             ELSE PrintT(<<"NOTE", l, "a model file of the directory was not loaded although no loaded model clashes with it">>)
 
-Raw  == TReset \/ TAdd \/ TReplace \/ TRemove \/ TClear \/ TDeploy \/ TEval
+Raw  == TReset \/ TAdd \/ TReplace \/ TRemove \/ TClear \/ TDeploy \/ TEval \/ TLoad
 Step == Raw /\ Inv' /\ AddableIff' /\ l' = l + 1
 
 NextReset(k) == IF \E j \in k+1..Len(Recs) : Recs[j].ev = "reset"
